@@ -625,6 +625,9 @@ type pass struct {
 	samples   []any
 	firedAll  bool
 	orders    map[string]bool
+	rnd       *rand.Rand
+	live      map[string]bool // subjects that exist and are not deactivated, from acknowledged outcomes
+	pendingOK bool            // change records of a stopped operation of another subject are waiting for the sweep: do not demand an empty log
 }
 
 var passes sync.Map // goroutine id -> *pass
@@ -806,7 +809,7 @@ func (p *pass) invariants(o op, phase string, pre, post *snapshot) {
 			}
 		}
 	}
-	if post.ChangeLog != 0 {
+	if post.ChangeLog != 0 && !p.pendingOK {
 		p.violation("C13/change-log-remains/"+o.Kind, fmt.Sprintf("%d change record(s) remain after the rollback sweep", post.ChangeLog), o, phase, pre, post, nil)
 	}
 }
@@ -901,11 +904,13 @@ func (p *pass) compare(o op, phase, class string, tookEffect bool, pre, post *sn
 	was := p.broken
 	p.broken = false
 	p.invariants(o, phase, pre, post)
+	reported := map[string]bool{}
 	for _, side := range []*snapshot{pre, post} {
 		for name := range side.Rows {
-			if name == o.Subject || reflect.DeepEqual(pre.Rows[name], post.Rows[name]) {
+			if name == o.Subject || reported[name] || reflect.DeepEqual(pre.Rows[name], post.Rows[name]) {
 				continue
 			}
+			reported[name] = true
 			p.violation("C13/other-subject-changed", fmt.Sprintf("rows of subject %s changed although the operation was on %s", name, o.Subject), o, phase, pre, post,
 				map[string]any{"other_before": pre.Rows[name], "other_after": post.Rows[name]})
 		}
@@ -1055,7 +1060,14 @@ func (p *pass) run() {
 				p.count("failed_operations_cleaned_by_sweep_only", 1)
 			}
 		}
-		p.e.sweep()
+		if stopped != nil && p.rnd.Intn(3) == 0 {
+			// the sweep only acts a minute after the restart: meanwhile another subject is operated on. That operation is an ordinary one and is
+			// judged as such; the stopped one is judged after the sweep.
+			if !p.between(o, pre) {
+				return
+			}
+		}
+		p.sweep(o)
 		post := p.e.snap(o.Subject)
 
 		tookEffect := err == nil && stopped == nil
@@ -1100,13 +1112,16 @@ func (p *pass) run() {
 			return
 		}
 		last = post
+		if tookEffect {
+			p.live[o.Subject] = o.Kind != kDeactivate
+		}
 		if !tookEffect && !natural {
 			// the repeated attempt
 			pre2 := post
 			p.cur = &armed{} // record boundaries and pending keys, no fault
 			err2, stopped2 := p.exec(o)
 			p.cur = nil
-			p.e.sweep()
+			p.sweep(o)
 			post2 := p.e.snap(o.Subject)
 			p.count("retries", 1)
 			if err2 != nil || stopped2 != nil {
@@ -1123,8 +1138,59 @@ func (p *pass) run() {
 				return
 			}
 			last = post2
+			p.live[o.Subject] = o.Kind != kDeactivate
 		}
 	}
+}
+
+// sweep runs ageing + the real Rollback; a panic of the sweep is a violation, not a harness failure.
+func (p *pass) sweep(o op) {
+	defer func() {
+		if v := recover(); v != nil {
+			buf := make([]byte, 4096)
+			buf = buf[:runtime.Stack(buf, false)]
+			p.r.Violation("C13/panic/Rollback", fmt.Sprintf("panic in the rollback sweep: %v", v), map[string]any{"op": o, "site": p.s.Name, "stack": string(buf)})
+			p.broken = true
+		}
+	}()
+	p.e.sweep()
+}
+
+// between runs one fault-free operation on another live subject while the change records of the stopped operation o are still waiting for the sweep.
+func (p *pass) between(o op, pre *snapshot) bool {
+	var others []string
+	for name, alive := range p.live {
+		if alive && name != o.Subject {
+			others = append(others, name)
+		}
+	}
+	if len(others) == 0 {
+		return true
+	}
+	sort.Strings(others)
+	bo := op{Kind: kAddVM, Subject: others[p.rnd.Intn(len(others))]}
+	bpre := p.e.snap(bo.Subject)
+	p.cur = &armed{}
+	err, stopped := p.exec(bo)
+	p.cur = nil
+	bpost := p.e.snap(bo.Subject)
+	p.count("operations_on_another_subject_between_stop_and_sweep", 1)
+	if err != nil || stopped != nil {
+		p.violation("C13/further-operation-failed/"+bo.Kind, fmt.Sprintf("an operation on another subject failed while change records of a stopped operation were pending: %v", err), bo, "between stop and sweep", bpre, bpost, nil)
+		return false
+	}
+	p.pendingOK = true
+	ok := p.compare(bo, "between stop and sweep", "no-fault", true, bpre, bpost)
+	p.pendingOK = false
+	p.r.Case(strings.Join([]string{bo.Kind, p.s.Name, "other-subject-before-sweep"}, "/"), true)
+	// the stopped operation is compared against its own "before": carry over what legitimately moved
+	pre.Rows[bo.Subject] = bpost.Rows[bo.Subject]
+	for id, h := range bpost.Net {
+		if strings.Contains(strings.Join(bpost.Rows[bo.Subject], " "), id) {
+			pre.Net[id] = h
+		}
+	}
+	return ok
 }
 
 // abandon records the verification methods that were created for versions that did not survive.
@@ -1149,6 +1215,72 @@ func versionsOf(s subjSnap) map[string][]int {
 		out[d.DID[:12]] = d.Versions
 	}
 	return out
+}
+
+// sameSubjectBeforeSweep observes what the property text does not decide: its quantifier has the sweep run before any further operation, but a node that
+// restarts sweeps only entries older than a minute, so an operation on the SAME subject can come first and build on the version of the stopped operation.
+// Nothing here is a verdict; the observations are counted as unspecified.
+func sameSubjectBeforeSweep(t *testing.T, r *ev.Run) {
+	id := sched.GoID()
+	for k, s := range sites {
+		if s.Name != "stop@after-tx1" && s.Name != "stop@before-commit:nuts" && s.Name != "stop@after-commit:web" {
+			continue
+		}
+		for _, first := range []string{kAddVM, kAddSvc} {
+			p := &pass{r: r, e: newEnv(t), s: s, didSets: map[string][]string{}, abandoned: map[string]string{}, seenHash: map[string]map[int]string{}, maxVer: map[string]int{},
+				stats: map[string]int{}, orders: map[string]bool{}, rnd: r.Rand("same-subject"), live: map[string]bool{}}
+			passes.Store(id, p)
+			func() {
+				defer p.e.close()
+				defer passes.Delete(id)
+				if err, _ := p.exec(op{Kind: kCreate, Subject: "s"}); err != nil {
+					r.Fatalf("same-subject scenario: create failed: %v", err)
+				}
+				pre := p.e.snap("s")
+				a := p.arm(sites[k])
+				_, stopped := p.exec(op{Kind: first, Subject: "s", Type: "first", Endpoint: "https://example.com/first"})
+				p.disarm(a)
+				if stopped == nil {
+					r.Inconclusive("same-subject scenario: the stop did not happen")
+					return
+				}
+				p.e.net.redeliver()
+				err2, _ := p.exec(op{Kind: kAddSvc, Subject: "s", Type: "second", Endpoint: "https://example.com/second"})
+				p.e.sweep()
+				post := p.e.snap("s")
+				stoppedKeys := map[string]bool{}
+				existed := map[string]bool{}
+				for _, d := range pre.Subjects["s"].DIDs {
+					for _, vm := range d.VMs {
+						existed[vm] = true
+					}
+				}
+				for _, vm := range a.pending {
+					if !existed[vm] {
+						stoppedKeys[vm] = true
+					}
+				}
+				class := "clean"
+				for _, d := range post.Subjects["s"].DIDs {
+					for i, v := range d.Versions {
+						if v != i {
+							class = "version-gap-after-sweep"
+						}
+					}
+					for _, vm := range append(append([]string{}, d.VMs...), d.NetVMs...) {
+						if stoppedKeys[vm] {
+							class = "key-of-swept-version-stays-published"
+						}
+					}
+				}
+				if err2 != nil {
+					class = "second-operation-refused"
+				}
+				r.Unspecified("operation-on-same-subject-between-stop-and-sweep/" + class)
+				r.Count("same_subject_before_sweep_cases", 1)
+			}()
+		}
+	}
 }
 
 // ---- error-log capture (the sweep reports failures only in the log) -----------------------------------------------------
@@ -1213,7 +1345,7 @@ func TestCheck(t *testing.T) {
 	rec := &sched.Recorder{OnHook: hook}
 	defer rec.Install()()
 
-	nSeq := r.Pick(25, 300)
+	nSeq := r.Pick(20, 200)
 	rnd := r.Rand("sequences")
 	seqs := make([][]op, nSeq)
 	nOps := 0
@@ -1236,7 +1368,8 @@ func TestCheck(t *testing.T) {
 			id := sched.GoID()
 			for j := range jobs {
 				p := &pass{r: r, e: newEnv(t), seqIdx: j.seq, seq: seqs[j.seq], s: sites[j.site], didSets: map[string][]string{}, abandoned: map[string]string{},
-					seenHash: map[string]map[int]string{}, maxVer: map[string]int{}, stats: map[string]int{}, orders: map[string]bool{}}
+					seenHash: map[string]map[int]string{}, maxVer: map[string]int{}, stats: map[string]int{}, orders: map[string]bool{},
+					rnd: r.Rand(fmt.Sprintf("pass-%d-%d", j.seq, j.site)), live: map[string]bool{}}
 				passes.Store(id, p)
 				p.run()
 				passes.Delete(id)
@@ -1253,6 +1386,8 @@ func TestCheck(t *testing.T) {
 	}
 	close(jobs)
 	wg.Wait()
+
+	sameSubjectBeforeSweep(t, r)
 
 	exhaustive := true
 	byFault := map[string]int{}
